@@ -285,6 +285,46 @@ func (in *Interp) copyOp(dst SliceV, srcv Value) Value {
 // external handles functions without SSA bodies and without a model.
 func (in *Interp) external(fn *ssa.Function, args []Value) Value {
 	name := fn.String()
+	if fn.Pkg != nil && fn.Pkg.Pkg.Path() == "sync/atomic" {
+		// sequentially consistent atomics on the concrete heap
+		n := fn.Name()
+		tb := in.tb
+		switch {
+		case strings.HasPrefix(n, "Add"):
+			p := args[0].(Ptr)
+			nv := tb.Add(in.load(p).(*Term), args[1].(*Term))
+			in.store(p, nv)
+			return nv
+		case strings.HasPrefix(n, "Load"):
+			return in.load(args[0].(Ptr))
+		case strings.HasPrefix(n, "Store"):
+			in.store(args[0].(Ptr), args[1])
+			return nil
+		case strings.HasPrefix(n, "Swap"):
+			p := args[0].(Ptr)
+			old := in.load(p)
+			in.store(p, args[1])
+			return old
+		case strings.HasPrefix(n, "CompareAndSwap"):
+			p := args[0].(Ptr)
+			old := in.load(p)
+			eq := in.valEq(old, args[1])
+			if in.branch(eq) {
+				in.store(p, args[2])
+				return tb.True
+			}
+			return tb.False
+		case strings.HasPrefix(n, "And") || strings.HasPrefix(n, "Or"):
+			p := args[0].(Ptr)
+			old := in.load(p).(*Term)
+			if strings.HasPrefix(n, "And") {
+				in.store(p, tb.BAnd(old, args[1].(*Term)))
+			} else {
+				in.store(p, tb.BOr(old, args[1].(*Term)))
+			}
+			return old
+		}
+	}
 	in.stats.Havocked[name]++
 	if in.initDepth > 0 {
 		return in.havocResult(fn)
